@@ -82,10 +82,20 @@ package contracts
 //@   ensures r == lastUntil
 
 // timers: the channel of a timer delivers instants (trusted: an instant received from t.C is not in the future)
+//@ ghost global tmState map[mathint]mathint
 //@ extern func time.NewTimer(d time.Duration) (t *time.Timer)
-//@   ensures t != nil && fresh(t) && t.C != nil
+//@   modifies tmState
+//@   ensures t != nil && fresh(t) && t.C != nil && tmState == upd(old(tmState), ref(t.C), 1)
+// timer protocol (ghost, keyed by the timer's channel): 0 idle (stopped, or its tick was received), 1 armed, 2 holds an
+// unreceived tick.  An armed timer may fire at any time, so Stop on a timer last seen armed either stops it (true) or
+// finds the tick already in the channel (false).
 //@ extern func (t *time.Timer) Stop() (r bool)
+//@   modifies tmState
+//@   ensures (old(tmState[ref(t.C)]) != 1 ==> !r && tmState == old(tmState)) &&
+//@           (old(tmState[ref(t.C)]) == 1 ==> (r && tmState == upd(old(tmState), ref(t.C), 0)) || (!r && tmState == upd(old(tmState), ref(t.C), 2)))
 //@ extern func (t *time.Timer) Reset(d time.Duration) (r bool)
+//@   modifies tmState
+//@   ensures tmState == upd(old(tmState), ref(t.C), 1)
 //@ extern func (c context.Context) Done() (ch <-chan struct{})
 //@   pure
 //@ extern func time.Sleep(d time.Duration)
